@@ -250,6 +250,19 @@ class Check:
         self.known_hits = {}       # finding id -> what fails
         self.cov = {'evaluations': 0, 'distinct_nontrivial': 0, 'samples': [], 'rule': ''}
         self.assumptions = []
+        self._called = None
+        if os.environ.get('VERIF_TRACE_FOOTPRINT'):
+            # development aid (translators/tr_pins.py): which functions of supp does this check's workload actually execute in
+            # this process?  Written to $VERIF_TRACE_FOOTPRINT/<prop>.json by finish(); not used to decide anything.
+            self._called = called = set()
+            marker = os.sep + 'supp' + os.sep
+
+            def prof(frame, event, arg):
+                if event == 'call':
+                    co = frame.f_code
+                    if marker in co.co_filename:
+                        called.add((os.path.basename(co.co_filename), getattr(co, 'co_qualname', co.co_name)))
+            sys.setprofile(prof)
         self.trusted = list(TRUSTED_BASE)
         self.checker_cmd = ''
         self.extra = {}
@@ -342,6 +355,11 @@ class Check:
         log('[%s] FAILING INPUT: %s' % (self.prop, what))
 
     def finish(self):
+        if self._called is not None:
+            sys.setprofile(None)
+            d = os.environ['VERIF_TRACE_FOOTPRINT']
+            os.makedirs(d, exist_ok=True)
+            json.dump(sorted(self._called), open(os.path.join(d, self.prop + '.json'), 'w'))
         wall = time.time() - self.t0
         os.makedirs(os.path.join(VERIF, 'evidence'), exist_ok=True)
         os.makedirs(os.path.join(VERIF, 'replays'), exist_ok=True)
